@@ -101,6 +101,7 @@ type propCfg struct {
 	QuickS    int // wall clock cap for the run phase (seconds)
 	ThoroughS int
 	Enumerate string
+	Also      string // a second engine that receives every 4th chunk of run indices
 	Budget    int
 	Rule      string
 	Real      []string
@@ -131,9 +132,10 @@ func init() {
 		Real: []string{"drpcsignal.Signal", "drpcsignal.Chan"}, Stub: []string{"sync.Mutex (simsync)", "callers (scripted tasks)"},
 		Assume: []string{"sequentially consistent interleavings at statement granularity (no weak-memory reorderings)", "porcupine v1.3.0 linearizability checker", "sampled interleavings"}}
 	props["C15"] = propCfg{Engine: "pool-sim", Level: "exploration", Quick: 40000, Thorough: 4000000, QuickS: 40, ThoroughS: 1200,
-		Rule: "one case = one simulated execution of 2-3 worker tasks issuing 2-8 operations each (Put new / Put taken / Take / external close / block / unblock / sleep) on one real drpcpool.Pool over 1-3 keys with capacity in {-1,0,1,2,3}, key capacity in {-1,0,1,2}, expiration in {0,1s}; expiry callbacks are tasks on the fake clock, the pool is closed and timers drained at the end; distinct = distinct SHA-256 of the director log; non-trivial = at least one preemption and at least two connections",
-		Real: []string{"drpcpool.Pool", "drpcpool entry/list"}, Stub: []string{"pooled connections (simulator-owned fake drpcpool.Conn)", "sync.Mutex (simsync)", "time.AfterFunc on the synctest fake clock (callbacks are director tasks)"},
-		Assume: []string{"sequentially consistent interleavings at lock/close/callback granularity", "sampled operation sequences and schedules"}}
+		Rule: "one case = one simulated execution of 2-3 worker tasks issuing 2-8 operations each (Put new / Put taken / Take / external close / block / unblock / sleep) on one real drpcpool.Pool over 1-3 keys with capacity in {-1,0,1,2,3}, key capacity in {-1,0,1,2}, expiration in {0,1s}; expiry callbacks are tasks on the fake clock, the pool is closed and timers drained at the end; every 4th chunk of run indices instead runs the pooled family of rpc-sim (client scripts call pool.Get(...) whose dial creates real drpcconn connections served by a real drpcserver.Serve); distinct = distinct SHA-256 of the director log; non-trivial = at least one preemption and at least two connections",
+		Real: []string{"drpcpool.Pool", "drpcpool entry/list", "drpcpool poolConn/streamWrapper and the whole rpc stack (every 4th chunk of runs: pooled family of rpc-sim)"}, Stub: []string{"pooled connections (simulator-owned fake drpcpool.Conn; real drpcconn in the pooled family)", "sync.Mutex (simsync)", "time.AfterFunc on the synctest fake clock (callbacks are director tasks)"},
+		Assume: []string{"sequentially consistent interleavings at lock/close/callback granularity", "sampled operation sequences and schedules"},
+		Also: "rpc-sim"}
 	props["C16"] = propCfg{Engine: "mux-sim", Level: "exploration", Quick: 30000, Thorough: 3000000, QuickS: 40, ThoroughS: 1200,
 		Rule: "one case = one simulated execution of a real drpcmigrate.ListenMux (prefix length 1-8, 1-3 routes registered before or while Run is running) over a simulated base listener with 2-6 dialers (registered / unregistered / too-short prefixes, payload written in arbitrary splits, some through HeaderConn with 1-3 concurrent writers), acceptor tasks per listener, and closers (route Close, context cancel, base listener error); distinct = distinct SHA-256 of the director log; non-trivial = at least one preemption",
 		Real: []string{"drpcmigrate.ListenMux", "drpcmigrate listener", "prefixConn", "HeaderConn"}, Stub: []string{"base net.Listener and net.Conn (simnet)", "sync (simsync)", "dialers/acceptors (scripted)"},
@@ -411,6 +413,9 @@ func cmdCheck(prop, tier string) int {
 				n++
 				wa := WorkerArgs{Spec: spec, From: j[0], To: j[1], Stride: 1, Out: out, Samples: 1, Resample: 97,
 					DeadlineS: int(left.Seconds()), Enumerate: cfg.Enumerate}
+				if cfg.Also != "" && (j[0]/chunk)%4 == 3 {
+					wa.Spec.Engine = cfg.Also
+				}
 				if cfg.Enumerate != "" {
 					wa.VarMod, wa.VarRem = varSplit, int(j[2])
 				}
